@@ -38,6 +38,8 @@ def ePkcs7 := "pkcs7:padding"
 def ePkcs7Size := "pkcs7:blocksize"
 /-- "message authentication failed" of any AEAD -/
 def eAuth := "aead:auth"
+/-- aescbcaead.Open: "invalid ciphertext size" -/
+def eAeadSize := "aead:size"
 /-- "invalid algorithm" of the two cipher getters -/
 def eInvalidAlgorithm := "invalid algorithm"
 
@@ -240,13 +242,15 @@ def cbcHmacSeal (P : Prims) (p : AeadParams) (key iv pt ad : Bytes) : Outcome By
     | .panic w => .panic w
 
 /-- `(*aesCBCAEAD).Open(nil, nonce, ciphertext‖tag, ad)`: the tag is compared before anything is
-decrypted or unpadded. -/
+decrypted or unpadded; an authenticated body that is not block aligned is an error (fix 5c853ad;
+before it `CryptBlocks` panicked). -/
 def cbcHmacOpen (P : Prims) (p : AeadParams) (key iv c ad : Bytes) : Outcome Bytes :=
-  if c.length < p.tagSize then .err eAuth
+  if c.length < p.tagSize then .err eAeadSize
   else
     let tag := c.drop (c.length - p.tagSize)
     let body := c.take (c.length - p.tagSize)
     if tag ≠ cbcHmacTag P p key ad iv body then .err eAuth
+    else if body.length % 16 ≠ 0 then .err eAeadSize
     else
       match cbcDecrypt (P.aes (encKeyOf p key)) iv body with
       | .ok padded => unpad padded 16
